@@ -54,6 +54,7 @@ type Instance struct {
 	Operands []Operand // stmts/expr: the operand parameters of the wrapper
 	RetType  string    // stmts/expr: result type of the wrapper
 	Wrapper  string    // name of the wrapper function
+	alias    map[*geval.SymType]*geval.SymType
 }
 
 // Operand is one operand-text parameter of a statement/expression generator.
@@ -117,11 +118,86 @@ func (in *Instance) basicName(t *geval.SymType) string {
 	return "int"
 }
 
+// canon: types the path says are identical / assignable to one another are
+// rendered as one type (the generator only checked assignability; the prelude
+// takes the most general reading: the same type).
+func (in *Instance) canon(t *geval.SymType) *geval.SymType {
+	if in.alias == nil {
+		in.alias = map[*geval.SymType]*geval.SymType{}
+		byDesc := map[string]*geval.SymType{}
+		for x := range in.Path.Facts {
+			byDesc[x.Desc] = x
+		}
+		var keys []string
+		for k, v := range in.Path.Preds {
+			if v == geval.Yes && (strings.HasPrefix(k, "AssignableTo(") || strings.HasPrefix(k, "Identical(")) {
+				keys = append(keys, k)
+			}
+		}
+		sort.Strings(keys)
+		find := func(x *geval.SymType) *geval.SymType {
+			for in.alias[x] != nil {
+				x = in.alias[x]
+			}
+			return x
+		}
+		for _, k := range keys {
+			inner := k[strings.Index(k, "(")+1 : len(k)-1]
+			// split at the top-level comma
+			depth, cut := 0, -1
+			for i, c := range inner {
+				switch c {
+				case '(':
+					depth++
+				case ')':
+					depth--
+				case ',':
+					if depth == 0 && cut < 0 {
+						cut = i
+					}
+				}
+			}
+			if cut < 0 {
+				continue
+			}
+			a, b := byDesc[inner[:cut]], byDesc[inner[cut+1:]]
+			if a == nil || b == nil {
+				continue
+			}
+			ra, rb := find(a), find(b)
+			if ra == rb {
+				continue
+			}
+			// keep the one the path knows more about
+			fa, fb := in.Path.Facts[ra], in.Path.Facts[rb]
+			if fa != nil && fb != nil && fa.Kind != geval.KUnknown && fb.Kind == geval.KUnknown {
+				in.alias[rb] = ra
+			} else if ra.ID < rb.ID && !(fb != nil && fb.Kind != geval.KUnknown && (fa == nil || fa.Kind == geval.KUnknown)) {
+				in.alias[rb] = ra
+			} else {
+				in.alias[ra] = rb
+			}
+		}
+	}
+	if t.IsView() {
+		return t
+	}
+	x := t
+	for in.alias[x] != nil {
+		x = in.alias[x]
+	}
+	return x
+}
+
 // TypeExpr renders a symbolic type as a Go type expression over the prelude.
 func (in *Instance) TypeExpr(t *geval.SymType) string {
+	t = in.canon(t)
 	f := in.fact(t)
 	if f == nil {
 		return in.declOpaque(t)
+	}
+	if f.TypeText != "" {
+		return f.TypeText
 	}
 	if !t.IsView() && f.Named != geval.No {
 		return in.declNamed(t)
@@ -144,6 +220,10 @@ func (in *Instance) declOpaque(t *geval.SymType) string {
 // opaqueLit is the underlying type of a type the path knows nothing about:
 // a struct nobody can look into, comparable only if the path says so.
 func (in *Instance) opaqueLit(r *geval.SymType) string {
+	if in.Path.Preds["o-fork.Nilable("+r.Desc+")"] == geval.Yes {
+		// an opaque type that has nil as a value (pointer, slice, map, func, interface, chan)
+		return fmt.Sprintf("*struct{ %sopq%d [0]func() }", Mark, r.ID)
+	}
 	if in.comparableOpaque(r) {
 		return fmt.Sprintf("struct{ %sopq%d int }", Mark, r.ID)
 	}
@@ -294,7 +374,17 @@ func (in *Instance) holeText(h *geval.Hole) string {
 	case "paramname", "resultname":
 		return fmt.Sprintf("%s%s_%d", Mark, h.Desc, h.Owner.ID)
 	case "typestr":
+		// go/types prints a signature with its parameter names when it has them
+		if f := in.fact(h.Type); f != nil && f.Kind == geval.KSignature && f.Params != nil && f.Results != nil && (h.Type.IsView() || f.Named != geval.Yes) {
+			return in.sigText(f.Params, f.Results)
+		}
 		return in.TypeExpr(h.Type)
+	case "tuplestr":
+		if len(h.Args) == 1 {
+			if tup, ok := h.Args[0].(*geval.SymTuple); ok {
+				return "(" + in.tupleText(tup) + ")"
+			}
+		}
 	case "typename":
 		return in.TypeExpr(h.Type)
 	case "funcname":
@@ -706,4 +796,38 @@ func (in *Instance) wrapper() (head, tail string, err error) {
 		head += l + "\n"
 	}
 	return head, "}\n", nil
+}
+
+func (in *Instance) tupleText(tup *geval.SymTuple) string {
+	var ps []string
+	for _, v := range tup.Vars {
+		n := in.renderTmpl(v.NameT, nil)
+		ty := in.TypeExpr(v.Type)
+		if f := in.fact(v.Type); f != nil && f.Kind == geval.KSignature && f.Params != nil && f.Results != nil && f.Named != geval.Yes {
+			ty = in.sigText(f.Params, f.Results)
+		}
+		if n != "" {
+			ps = append(ps, n+" "+ty)
+		} else {
+			ps = append(ps, ty)
+		}
+	}
+	return strings.Join(ps, ", ")
+}
+
+// sigText renders a signature the way go/types does: names when present.
+func (in *Instance) sigText(params, results *geval.SymTuple) string {
+	s := "func(" + in.tupleText(params) + ")"
+	switch len(results.Vars) {
+	case 0:
+	case 1:
+		r := in.tupleText(results)
+		if strings.Contains(r, " ") && !strings.HasPrefix(r, "func(") && !strings.HasPrefix(r, "struct") && !strings.HasPrefix(r, "map[") && !strings.HasPrefix(r, "interface") && !strings.HasPrefix(r, "chan ") {
+			r = "(" + r + ")"
+		}
+		s += " " + r
+	default:
+		s += " (" + in.tupleText(results) + ")"
+	}
+	return s
 }
